@@ -8,6 +8,7 @@ def run(F, G, tier, seed):
     printer.run(chk, F, G)
     printer.run_roles(chk, F)
     printer.run_total(chk, F)
+    printer.run_strquote(chk, F)
     from ..rules import prquery
     prquery.run(chk, F, G)
     return chk.finish(
